@@ -2,6 +2,7 @@ import DeepModel.Driver.Proto
 import DeepModel.Model.Limiter
 import DeepModel.Model.LimiterTimed
 import DeepModel.Model.LimiterInstall
+import DeepModel.Model.LimiterInstallSvc
 open Lean Proto Limiter Extracted.Limiter
 
 def parseCfg (j : Json) : Except String Cfg := do
@@ -76,8 +77,22 @@ def handle (j : Json) : Except String Json := do
       | "code" => pure Origin.code
       | o => throw s!"unknown origin {o}"
     let ops ← (← getArr j "ops").toList.mapM parseOp
+    let optInts (xs : List (Option Int)) : Json := Json.arr (xs.map (fun x => match x with | some i => toJson i | none => Json.null)).toArray
     pure (Json.mkObj [("collected", ints (runOps cfg origin ops)),
+                      -- hits seen by the installed OBJECT: per the translated configuration service / per stepOp
+                      ("ages_svc", optInts ((agesSvc origin World.init none 0 ops).map (·.map Int.ofNat))),
+                      ("ages_model", optInts (agesModel origin none ops)),
                       ("installations", Json.arr ((installations origin ops).map (fun seg => ints (seg.map (·.ts)))).toArray)])
+  | "opsN" =>
+    -- one tracepoint with several actions (own configuration each): collections per action
+    let cfgs ← (← getArr j "cfgs").toList.mapM parseCfg
+    let origin ← match (← getStr j "origin") with
+      | "service" => pure Origin.service
+      | "code" => pure Origin.code
+      | o => throw s!"unknown origin {o}"
+    let ops ← (← getArr j "ops").toList.mapM parseOp
+    let rows := runOpsN cfgs origin ops
+    pure (Json.mkObj [("collected", Json.arr ((List.range cfgs.length).map (fun k => ints (column k rows))).toArray)])
   | "parse" =>
     pure (Json.mkObj [("fire_count", toJson cfg.count), ("fire_period", toJson cfg.period)])
   | _ => throw s!"unknown op {op}"
